@@ -72,18 +72,34 @@ def state_of(o):
             sorted(set((u["filters"], u["nnp"], u["seccomp"]) for u in o["unmanaged"])))
 
 
-def features(h):
-    f = []
+def tags(h):
+    f = set()
     for e in h["hist"]:
         if e["op"] == "load":
-            f.append("%s%s%s%s" % (e["pol"][0], "T" if "TSYNC" in e["flags"] else "", "B" if "BAD" in e["flags"] else "", "n" if e["nnp"] else ""))
-            if e["res"] == "err" and e["pol"] == "valid" and "BAD" not in e["flags"]:
-                f.append("refused" if h["priv"] or e["nnp"] else "eacces")
+            tsync = "TSYNC" in e["flags"]
+            if e["pol"] == "invalid":
+                f.add("invalid")
+            elif "BAD" in e["flags"]:
+                f.add("badflags")
+            elif e["pol"] == "oversize":
+                f.add("oversize")
+            elif e["res"] == "nil":
+                f.add("ok-tsync" if tsync else "ok-plain")
+            elif not h["priv"] and not e["state"][e["caller"]]["nnp"]:
+                f.add("eacces")
+            else:
+                f.add("refused-tsync")
             if e["hook"]:
-                f.append("hook")
+                f.add("hook-spawn")
+            if e["nnp"]:
+                f.add("nnp")
         else:
-            f.append(e["op"])
-    return (h["priv"], tuple(f))
+            f.add(e["op"])
+    return f
+
+
+def features(h):
+    return (h["priv"], tuple(sorted(tags(h))))
 
 
 def check(ctx, replay=None):
@@ -123,22 +139,37 @@ def check(ctx, replay=None):
     def one(h):
         script = lf.to_script(h, 3)
         obs, err = lf.run_child(d + "/loadchild", script, h["priv"])
+        if obs is None and (err.startswith("rc=") or err == "timeout") and any(st["op"] == "supported" for st in script["steps"]):
+            # find out where it died: replay the prefix without Supported()
+            k = [i for i, st in enumerate(script["steps"]) if st["op"] == "supported"][0]
+            pre = dict(script)
+            pre["steps"] = script["steps"][:k]
+            o2, e2 = lf.run_child(d + "/loadchild", pre, h["priv"])
+            if o2 is not None:
+                return h, script, "died-at-supported", err
         return h, script, obs, err
     failed_children = 0
     ndrift = 0
+    seen_tags = {}
     for h, script, obs, err in lf.run_many(one, picked):
-        if obs is None or len(obs) != len(h["hist"]):
+        if obs is None or (obs != "died-at-supported" and len(obs) != len(h["hist"])):
             failed_children += 1
             ctx.skip("child failed: %s" % (err or "short output"))
+            continue
+        if obs == "died-at-supported":
+            ctx.violation("the process died when Supported() was called (probing for support must not change process state)",
+                          {"history": h, "script": script, "priv": h["priv"], "observed": err, "how": "./check C09 --replay <this file>"})
             continue
         bad, drift = judge(h, obs)
         ctx.cov["traces_validated_against_impl"] += 1
         ctx.cov["evaluations"] += len(obs)
         if any(e["op"] == "load" and e["res"] == "err" for e in h["hist"]):
             ctx.cov["distinct_nontrivial"] += 1
+        for t in tags(h):
+            seen_tags[t] = seen_tags.get(t, 0) + 1
         if drift:
             ndrift += 1
-            ctx.drift({"history": features(h)[1], "what": drift[:3]})
+            ctx.drift({"history": list(features(h)[1]), "what": drift[:3]})
         for b in bad:
             ctx.violation(b, {"history": h, "script": script, "priv": h["priv"], "observed": obs,
                               "admissible": "nil only with the filter in force (on every thread for thread-sync); an error whenever the kernel declines; failed-early loads and Supported() leave the state unchanged",
@@ -148,6 +179,10 @@ def check(ctx, replay=None):
     if failed_children > len(picked) // 4:
         raise vlib.Machinery("%d of %d children failed" % (failed_children, len(picked)))
     ctx.cov["histories_generated"] = len(hists)
+    ctx.cov["replayed_by_tag"] = seen_tags
+    for need in ("refused-tsync", "eacces", "badflags", "oversize", "invalid", "ok-tsync", "ok-plain", "supported", "hook-spawn"):
+        if not seen_tags.get(need):
+            raise vlib.Machinery("no replayed history exercised '%s'" % need)
     ctx.cov["history_classes"] = nclasses
     ctx.cov["histories_with_projection_drift"] = ndrift
     ctx.cov["rule"] = ("all maximal histories of LoaderGen (threads pool,t1,t2; %d calls; flags {},TSYNC,BAD,TSYNC|LOG; valid/invalid/oversize policies; "
